@@ -19,7 +19,9 @@ LayersEq(ds, xs) == Len(ds) = Len(xs) /\ \A i \in 1..Len(xs) : LayerEq(ds[i], xs
 AllGeoms(e) == UNION {UNION {IF f.g.t = "Collection" THEN {f.g.g[j] : j \in 1..Len(f.g.g)} ELSE {f.g}
                              : f \in {e.layers[i].feats[j] : j \in 1..Len(e.layers[i].feats)}} : i \in 1..Len(e.layers)}
 Pre(e) == \A g \in AllGeoms(e) : g.t = "nil" \/ WellWound(g)
-Ok(e, ALL) ==
+\* sizes: a layer of n features that compresses well comes back whole on the plain and on the gzipped path
+BigOk(e) == e.plain = 1 /\ e.gz = 1 /\ e.np = e.n /\ e.ng = e.n
+Ok(e, ALL) == IF e.k = "mvtbig" THEN BigOk(e) ELSE
    /\ e.k = "mvt"
    /\ Assert(Pre(e), <<"generator fault: polygon winding precondition", e>>)
    /\ e.err = ""
